@@ -38,18 +38,21 @@ def build(u):
     new.body_start('broadcast use axiom_range_usize;')
     # ghost snapshot of the collected input
     new.insert_after('collect ( ) ;', '\n        let ghost s0 = sorted_entries@;')
-    # the sort key closure: say what it returns
-    new.insert_after('sort_by_cached_key ( | e', ': &T')
-    new.insert_after('sort_by_cached_key ( | e |', ' -> (k: T::Rank) ensures k == e.spec_rank() {')
-    new.insert_after('sort_by_cached_key ( | e | e . rank ( )', ' }')
-    new.insert_after('sort_by_cached_key ( | e | e . rank ( ) ) ;',
-                     '\n        let ghost p = sorted_entries@;\n'
-                     '        let ghost q0 = init_queue(p, %s);\n' % ACC)
-    new.insert_after('sort_by_cached_key ( | e | e . rank ( ) ) ;',
-                     '\n        proof {\n'
-                     '            lemma_scan_init(q0, (p.len() - capacity) as nat);\n'
-                     '            assert(sorted_by(p, %s));\n'
-                     '        }' % KEY)
+    # the sort key closure: say what it returns (any of the by-key sorts; same assumed contract).
+    # If no such call is present the sortedness assertion below simply fails: a violation, not a lost anchor.
+    for meth in ('sort_by_cached_key', 'sort_by_key', 'sort_unstable_by_key'):
+        pat = meth + ' ( | e | e . rank ( ) )'
+        if new._find(pat, count=True) == 1:
+            new.insert_after(meth + ' ( | e', ': &T')
+            new.insert_after(meth + ' ( | e |', ' -> (k: T::Rank) ensures k == e.spec_rank() {')
+            new.insert_after(meth + ' ( | e | e . rank ( )', ' }')
+    new.insert_before('let must_remove =',
+                      'let ghost p = sorted_entries@;\n'
+                      '        let ghost q0 = init_queue(p, %s);\n'
+                      '        proof {\n'
+                      '            lemma_scan_init(q0, (p.len() - capacity) as nat);\n'
+                      '            assert(sorted_by(p, %s));\n'
+                      '        }\n        ' % (ACC, KEY))
     new.insert_after('for entry in', ' it:')
     K = '(to_evict@.len() + to_move_back@.len())'
     new.loop_contract(0, invariant=[
